@@ -151,6 +151,53 @@ theorem runBlocksR_spec : ∀ (bs : List (Int × Int × Dec)) (t0 : Int) (e0 : D
     refine ⟨i1, i2, ?_⟩
     rw [hadd]; simp only [P_val] at *; omega
 
+/-- piecewise-constant rate, cap never taken: the shortfall is at most the per-block `QuoInt64` truncations -/
+theorem runBlocksR_lower : ∀ (bs : List (Int × Int × Dec)) (t0 : Int) (e0 : Dec), 0 ≤ e0.m → e0.m < P →
+    okBlocksR t0 bs → uncappedR t0 e0 bs = true →
+    rateTime t0 bs - 1000000000 * (sumL (runBlocksR t0 e0 bs).1 * P + (runBlocksR t0 e0 bs).2.2.m - e0.m)
+      ≤ 1000000000 * (bs.length : Int) := by
+  intro bs
+  induction bs with
+  | nil =>
+    intro t0 e0 _ _ _ _
+    simp only [runBlocksR, rateTime, sumL, List.length_nil]
+    omega
+  | cons b bs ih =>
+    obtain ⟨now, pool, rate⟩ := b
+    intro t0 e0 h0 h1 hs hu
+    obtain ⟨hs1, hs2, hs3, hs4⟩ := hs
+    simp only [uncappedR, Bool.and_eq_true, Bool.not_eq_true', decide_eq_false_iff_not] at hu
+    obtain ⟨c1, c2, -, -, -, c6⟩ := calc_step now t0 e0 rate pool hs1 hs3 h0 h1 hs2 _ rfl
+    have k1 := c6 hu.1
+    have k2 := ih now (calculateStakingRewards now t0 e0 rate (Dec.ofInt pool)).2 c1 c2 hs4 hu.2
+    simp only [runBlocksR, rateTime, sumL, List.length_cons]
+    generalize calculateStakingRewards now t0 e0 rate (Dec.ofInt pool) = r at *
+    generalize runBlocksR now r.2 bs = rest at *
+    generalize rate.m * (now - t0) = A at *
+    generalize rateTime now bs = B at *
+    have hadd : (r.1 + sumL rest.1) * P = r.1 * P + sumL rest.1 * P := Int.add_mul ..
+    rw [hadd]; simp only [P_val] at *; omega
+
+/-- a history with params-update messages interleaved IS the block history with, for every block, the
+    rate stored when its begin blocker ran: an update touches neither the accumulation time nor the error -/
+theorem runHist_blocks : ∀ (hs : List HStep) (rate : Dec) (last : Int) (err : Dec),
+    (runHist rate last err hs).1 = (runBlocksR last err (blocksOf rate hs)).1 ∧
+    (runHist rate last err hs).2.1 = (runBlocksR last err (blocksOf rate hs)).2.1 ∧
+    (runHist rate last err hs).2.2.1 = (runBlocksR last err (blocksOf rate hs)).2.2 := by
+  intro hs
+  induction hs with
+  | nil => intro rate last err; simp only [runHist, blocksOf, runBlocksR, and_self]
+  | cons h hs ih =>
+    intro rate last err
+    cases h with
+    | block now pool =>
+      obtain ⟨i1, i2, i3⟩ := ih rate now (calculateStakingRewards now last err rate (Dec.ofInt pool)).2
+      simp only [runHist, blocksOf, runBlocksR]
+      exact ⟨by rw [i1], i2, i3⟩
+    | update rate' =>
+      simp only [runHist, blocksOf]
+      exact ih rate' last err
+
 theorem order3_val : order3 = ["community", "mint", "kavadist"] := by decide
 
 theorem disable_none (now : Int) (p : CommParams) (x : Infl) (h : p.upgradeTime = none) :
